@@ -529,6 +529,51 @@ def canonical_calls(st, kind, n, h, a, calls, B, start_rows, fresh):
     return out
 
 
+def decomplement(st, kind, n, h, a, calls, B, start_rows, fresh):
+    """a Bernoulli(p) unit may be drawn directly or as the complement of a Bernoulli(1-p) draw (sample the OFF event, flip): the
+    property fixes the law of the unit, not which of the two events torch.bernoulli is asked for.  Walk the passes with the PUBLIC
+    conditionals of the implementation; a call whose recorded probabilities are 1 - conditional (and not the conditional) is replaced
+    by the equivalent direct call (p -> 1-p, draw -> 1-draw).  Anything else is left as recorded (and judged as recorded)."""
+    per = 3 if kind == "dens" else 2
+    body = calls[1:] if fresh else calls
+    if not calls or len(body) % per or (fresh and calls[0]["draw"].size != B * n):
+        return calls
+    rbm = st.rbm_am
+    close = lambda x, y: x.shape == y.shape and bool(np.allclose(x, y, rtol=1e-9, atol=1e-12))  # noqa: E731
+
+    def fix(c, pe):
+        pe = np.asarray(pe, dtype=np.float64).ravel()
+        if not close(c["p"], pe) and close(c["p"], 1.0 - pe):
+            c = dict(c, p=1.0 - c["p"], draw=1 - c["draw"], complement=True)
+        return c
+
+    try:
+        out = list(calls[:1]) if fresh else []
+        v = (calls[0]["draw"] if fresh else np.asarray(start_rows)).reshape(B, n).astype(np.float64)
+        for s_ in range(len(body) // per):
+            cs = body[per * s_: per * s_ + per]
+            c0 = fix(cs[0], rbm.prob_h_given_v(tt(v.tolist(), n)).numpy())
+            if c0["draw"].size != B * h:
+                return calls
+            hd = c0["draw"].reshape(B, h).astype(np.float64)
+            if kind == "dens":
+                c1 = fix(cs[1], rbm.prob_a_given_v(tt(v.tolist(), n)).numpy())
+                if c1["draw"].size != B * a:
+                    return calls
+                ad = c1["draw"].reshape(B, a).astype(np.float64)
+                c2 = fix(cs[2], rbm.prob_v_given_ha(tt(hd.tolist(), h), tt(ad.tolist(), a)).numpy())
+                out += [c0, c1, c2]
+            else:
+                c2 = fix(cs[1], rbm.prob_v_given_h(tt(hd.tolist(), h)).numpy())
+                out += [c0, c2]
+            if c2["draw"].size != B * n:
+                return calls
+            v = c2["draw"].reshape(B, n).astype(np.float64)
+        return out
+    except Exception:
+        return calls
+
+
 def step_sizes(kind, n, h, a):
     return [h, a, n] if kind == "dens" else [h, n]
 
@@ -603,6 +648,7 @@ def run_call(ctx, st, kind, n, h, a, am, k, start_rows, vector, overwrite, dtype
         ctx.count(f"k / num_samples given as {d_['form']}")
     A.ints.used.clear()
     calls = canonical_calls(st, kind, n, h, a, rec.calls, B, start_rows, fresh=init is None)
+    calls = decomplement(st, kind, n, h, a, calls, B, start_rows, fresh=init is None)
     sizes = step_sizes(kind, n, h, a)
     exp_shapes = ([[B, n]] if init is None else []) + [([m] if vector else [B, m]) for _ in range(k) for m in sizes]
     got_shapes = [c["shape"] for c in calls]
@@ -626,8 +672,20 @@ def run_call(ctx, st, kind, n, h, a, am, k, start_rows, vector, overwrite, dtype
     okv = (tuple(res.shape) == ((n,) if vector else (B, n)) and res.dtype == torch.double and bool(np.all((final == 0) | (final == 1))))
     ctx.oracle(f"{tag}: result is a 0/1 double array of the requested shape", okv, case, detail={"shape": list(res.shape), "dtype": str(res.dtype)},
                sig=f"{kind}/values-shape", theorem="C05_values_shape")
-    ctx.oracle(f"{tag}: bernoulli call pattern (count, order h[,a],v, shapes)", got_shapes == exp_shapes, case,
-               detail={"got": got_shapes, "expected": exp_shapes}, sig=f"{kind}/call-pattern", theorem="C05_kernel(_purif)")
+    pattern_ok = got_shapes == exp_shapes
+    # how the draws are split into torch.bernoulli calls (one call per layer, layers concatenated, ...) is not constrained by the
+    # property; when the recording does not have the shape the model scripts, the scripted replay cannot be applied: that is a
+    # broken correspondence (ONE auxiliary point), and only the effect oracles decide this call
+    ctx.point(f"{tag}: bernoulli call pattern (count, order h[,a],v, shapes) as the model scripts it", "aux", got_shapes, exp_shapes, case, exact=True,
+              sig=f"{kind}/call-pattern", theorem="C05_kernel(_purif)")
+    if calls:
+        # ... but HOW MANY units are drawn is constrained: every step draws every hidden (and auxiliary) unit and then every visible
+        # unit of every chain, so the number of Bernoulli elements drawn through torch.bernoulli is fixed by (B, k, sizes); how a fresh
+        # start state is drawn (B*n more elements, or none when it comes from another torch function) is not part of a step
+        tot = lambda shp: int(sum(int(np.prod(x)) for x in shp))  # noqa: E731
+        ctx.oracle(f"{tag}: every step draws every hidden (auxiliary) and visible unit of every chain exactly once", tot(got_shapes) in ((tot(exp_shapes), tot(exp_shapes) - B * n) if init is None else (tot(exp_shapes),)), case,
+                   detail={"elements_drawn": tot(got_shapes), "expected": tot(exp_shapes), "got": got_shapes}, sig=f"{kind}/draw-count",
+                   theorem="C05_kernel(_purif)")
     if init is not None:
         same = res.data_ptr() == ptr
         if not overwrite or dtype != "double":
@@ -641,6 +699,8 @@ def run_call(ctx, st, kind, n, h, a, am, k, start_rows, vector, overwrite, dtype
                        detail={"same_object": same, "after": init.tolist(), "result": final.tolist(), "overwrite_given_as": repr(ow_obj)},
                        sig=f"{kind}/overwrite-true", theorem="C05_overwrite, C05_overwrite_flag")
         ctx.count("draws written in place (out= aliases the probability buffer)" if all(c["out"] and c["alias"] for c in calls) else "draws not in place")
+    if not pattern_ok:
+        return res, [], final
     step_calls = calls[1:] if init is None and calls else calls
     chain_start = start_rows if init is not None else (calls[0]["draw"].reshape(B, n).tolist() if calls else None)
     if chain_start is not None and got_shapes == exp_shapes:
@@ -720,9 +780,16 @@ def replay_body(ctx, st, case, am, inp=None, ikey=None, A=None):
             return
         fin2 = res2.detach().numpy().reshape(case["B"], n).copy()
         same2 = res2.data_ptr() == ptr2
+        b2rows = before2.detach().to(torch.double).numpy().reshape(case["B"], n).tolist()
+        rec2.calls = decomplement(st, kind, n, h, a, canonical_calls(st, kind, n, h, a, rec2.calls, case["B"], b2rows, fresh=False),
+                                  case["B"], b2rows, fresh=False)
         ctx.oracle("call2: buffer semantics on the continued chain", bool(same2 == case["overwrite2"] and (case["overwrite2"] or torch.equal(res, before2))), case,
                    detail={"overwrite_given_as": repr(ow2), "same_object": bool(same2)}, sig=f"{kind}/continue-buffer", theorem="C05_overwrite, C05_overwrite_flag")
         scripted = bool(calls or rec2.calls) or (k + k2 == 0 and start is not None)  # else: draws not made through torch.bernoulli (aux point above)
+        exp2 = [[case["B"], m_] for _ in range(k2) for m_ in step_sizes(kind, n, h, a)]
+        if [c["shape"] for c in rec2.calls] != exp2 or (not calls and (k > 0 or start is None)):
+            scripted = False  # the recording does not have the shape the model scripts (aux point `call-pattern` of call1 / counted here)
+            ctx.count("continued chain: scripted replay not applicable")
         if ctx.driver is not None and scripted and (start is not None or calls):
             chain_start = start if start is not None else calls[0]["draw"].reshape(case["B"], n).tolist()
             c1 = calls[1:] if start is None else calls
@@ -823,12 +890,19 @@ def c05_thunks(st, case, inp, ams):
             # overwrite=False in one of the falsy forms (chosen by the case): the shared `space` tensor must stay untouched
             st.sample(qc.int_value(qc.INT_FORMS[case["rseed"] % len(qc.INT_FORMS)] if "aseed" in case else "py", 1), initial_state=space, overwrite=qc.flag_value({"form": qc.FLAG_FORMS[case["rseed"] % len(qc.FLAG_FORMS)] if "gpuf" in case else "py",
                                                                         "value": False}))
-        state["calls"] = rec.calls
-        return np.concatenate([c["p"] for c in rec.calls]) if rec.calls else np.zeros(0)
+        cl = canonical_calls(st, kind, n, h, a, rec.calls, len(V), V, fresh=False)
+        cl = decomplement(st, kind, n, h, a, cl, len(V), V, fresh=False)
+        sizes_ = [len(V) * m_ for m_ in step_sizes(kind, n, h, a)]
+        if [c["draw"].size for c in cl] != sizes_:
+            cl = []  # not the call pattern the model scripts: no verdict from this thunk (the replay part reports the broken correspondence)
+        state["calls"] = cl
+        return np.concatenate([c["p"] for c in cl]) if cl else np.zeros(0)
 
     def one_pass_ref(k):
         calls = state["calls"]
         B = len(V)
+        if not calls:
+            return np.zeros(0)
         try:
             hd = calls[0]["draw"].reshape(B, h).astype(np.float64)
             ad = calls[1]["draw"].reshape(B, a).astype(np.float64) if dens else None
